@@ -32,3 +32,75 @@ add(Gram("g1", Level([
     Named("arg", "c", ["gamma"], arity="opt"),
     Named("arg", "d", ["delta"], arity="many"),
 ]), short_flags="a", short_args="bcd", note="one switch, required/optional/many arguments"))
+
+from mirsym.values import Adt
+
+
+def mk(ty, var):
+    return lambda vals: Adt(ty, var, tuple(vals))
+
+
+add(Gram("g2", Level([
+    Named("req_flag", "r", ["req"], present=()),
+    Named("count", "v", ["verbose"]),
+    Named("arg", "s", ["some"], arity="some"),
+    Named("arg", "l", ["last"], arity="last"),
+    Named("arg", "f", ["fall"], arity="fallback", default=42),
+]), short_flags="rv", short_args="slf", note="required flag, counted flag, some/last/defaulted argument"))
+
+add(Gram("g3", Level([
+    Named("switch", "aA", ["alpha", "al"]),
+    Named("arg", "bB", ["beta", "be"], arity="opt"),
+]), short_flags="aA", short_args="bB", note="aliases"))
+
+add(Gram("p1", Level([
+    Named("switch", "a", ["alpha"]),
+    Named("arg", "b", ["beta"], arity="opt"),
+    Pos("req"),
+    Pos("opt"),
+]), short_flags="a", short_args="b", note="named + required and optional positional"))
+
+add(Gram("p2", Level([
+    Named("arg", "d", ["delta"], arity="many"),
+    Pos("many"),
+]), short_args="d", note="repeated argument and positional tail"))
+
+add(Gram("p3", Level([
+    Named("switch", "a", ["alpha"]),
+    Pos("opt", strict="non_strict"),
+    Pos("many", strict="strict"),
+]), short_flags="a", note="non_strict optional then strict many"))
+
+add(Gram("p4", Level([
+    Named("arg", "b", ["beta"], arity="opt"),
+    Pos("req", strict="strict"),
+]), short_args="b", note="strict required positional"))
+
+add(Gram("p5", Level([
+    Pos("req"),
+    Pos("many"),
+]), note="positionals only"))
+
+_c1_add = Level([Named("switch", "n", ["new"]), Pos("req")], make=mk("Cmd1", 0))
+_c1_rm = Level([Named("arg", "f", ["force"], arity="opt"), Pos("many")], make=mk("Cmd1", 1))
+
+add(Gram("c1", Level([
+    Named("switch", "v", ["verbose"]),
+    Named("arg", "t", ["top"], arity="opt"),
+    Cmds([Cmd(["add", "a"], _c1_add), Cmd(["rm", "remove"], _c1_rm)]),
+]), short_flags="vn", short_args="tf", note="two subcommands with aliases under a level with named items"))
+
+_c2_leaf = Level([Named("switch", "z", ["zed"]), Pos("opt")], make=mk("Inner2", 0))
+_c2_mid = Level([Named("switch", "m", ["mid"]), Cmds([Cmd(["leaf"], _c2_leaf)])])
+
+add(Gram("c2", Level([
+    Named("switch", "v", ["verbose"]),
+    Cmds([Cmd(["mid"], _c2_mid)]),
+]), short_flags="vmz", note="subcommand tree of depth 2"))
+
+add(Gram("c3", Level([
+    Named("switch", "v", ["verbose"]),
+    Cmds([Cmd(["add"], _c1_add)], optional=True),
+]), short_flags="vn", note="optional subcommand"))
+
+C01_GRAMMARS = ["g1", "g2", "g3", "p1", "p2", "p3", "p4", "p5", "c1", "c2", "c3"]
